@@ -59,7 +59,7 @@ CallsOK(e, Fr, Gr) ==
 \* are not specified on such a frame; those that go by the strings are (C09: Equals, views, writers).
 AmbFrame(f) == ~f.err /\ ~IsUnspec(f) /\ \E c \in 1..Len(f.cols) : f.cols[c].typ = "enum" /\ HasDup(f.cols[c].vals)
 AmbSafeOps == {"New", "Select", "Drop", "Slice", "Copy", "Rolling", "WithRowNums", "Rebuild", "Apply", "Equals", "SliceObs",
-               "Scribble", "View", "ToCSV", "ToJSON", "String", "ReadCSV", "ReadJSON", "CsvScan", "ReadSQL", "QFrames", "Aggregate"}
+               "Scribble", "View", "TypedView", "ToCSV", "ToJSON", "String", "ReadCSV", "ReadJSON", "CsvScan", "ReadSQL", "QFrames", "Aggregate"}
 AmbRes(e) ==
   IF e.op = "GroupBy" THEN Res(TRUE, FALSE, TRUE, <<>>, <<>>, <<ErrGrouper>>, <<e.gdig>>)
   ELSE IF e.op \in {"Filter", "Sort", "Distinct", "FilteredApply", "Eval"} THEN Res(TRUE, FALSE, TRUE, <<ErrFrame>>, <<e.dig>>, <<>>, <<>>)
@@ -104,6 +104,12 @@ JudgeOp1(e, Fr, Gr) ==
          ELSE Plain((e.res = 1) = EqualsSem(R, other))
     [] e.op = "SliceObs" -> Plain(TRUE)
     [] e.op = "Scribble" -> Plain(TRUE)      \* overwriting what View.Slice() returned; persistence is judged by Persist
+    [] e.op = "TypedView" ->
+         \* IntView / FloatView / ... : an error exactly when the column is missing or of another type;
+         \* otherwise a view of the frame's length
+         IF R.err THEN PlainU("unspec", TRUE)
+         ELSE LET ok == HasCol(R, e.a.col) /\ ColOf(R, e.a.col).typ = e.a.typ IN
+              Plain((e.res = 0) = ok /\ (ok => e.vlen = R.n))
     [] e.op = "View" ->
          \* a typed view shows exactly the column's cells in frame order (C09); it joins the family (C01)
          \* (the harness registers a view - an empty one - also for an error frame or an absent column)
